@@ -71,8 +71,9 @@ def trunc (d : Dec) : Int :=
 end Dec
 
 mutual
-/-- SQF values as far as the models need them. `ref` = array in the heap, `mapref` = hash map in
-    the heap. -/
+/-- SQF values as far as the models need them. `ref` = array in the heap (arrays are shared,
+    mutable references), `code` = immutable instruction list; the remaining constructors are the
+    helper types of the control structures (`IF`, `WHILE`, `FOR`, `SWITCH`, `WITH`, `EXCEPTION`, …). -/
 inductive Val where
   | nil
   | num (d : Dec)
@@ -81,6 +82,18 @@ inductive Val where
   | str (s : List B)
   | ref (id : Nat)
   | code (is : List Instr)
+  | ifv (b : Bool)
+  | whilev (cond : List Instr)
+  | forv (var : Name) (frm to step : Dec)
+  /-- the `d_switch` object: value switched on, `match_now`, `has_match`, `target_code` -/
+  | sw (v : Val) (matchNow hasMatch : Bool) (target : List Instr)
+  | ns (id : Nat)
+  | withv (id : Nat)
+  | exc (code : List Instr)
+  | script (ctx : Nat)
+  /-- stack trace object carrying a payload (thrown value / array of error messages) -/
+  | strace (payload : Val)
+  | mapref (id : Nat)
   | other (tag : Name)
 /-- The nine opcodes of `src/opcodes`. -/
 inductive Instr where
